@@ -190,6 +190,103 @@ func c14Worker() {
 	}
 }
 
+// ------------------------------------------------------------------ big (sparse) record files
+
+// c14MakeSparse: a record file of n records of sz bytes of which only the first and the last record are stored (bytes 200);
+// everything between is a hole (reads as zero, takes no disk space) - what a .DIR / post log of that many records looks
+// like to AppendRecord, which only looks at the length.
+func c14MakeSparse(file string, sz int, n int64) bool {
+	f, err := os.OpenFile(file, os.O_RDWR|os.O_CREATE|os.O_TRUNC, 0o644)
+	if err != nil {
+		return false
+	}
+	defer f.Close()
+	if err := f.Truncate(int64(sz) * n); err != nil {
+		return false
+	}
+	rec := make([]byte, sz)
+	for i := range rec {
+		rec[i] = 200
+	}
+	if n >= 1 {
+		if _, err := f.WriteAt(rec, 0); err != nil {
+			return false
+		}
+		if _, err := f.WriteAt(rec, int64(sz)*(n-1)); err != nil {
+			return false
+		}
+	}
+	return true
+}
+
+type c14Run_ struct {
+	off int64
+	b   []byte
+}
+
+// c14SparseRuns: the whole content of a sparse file, losslessly: its size and every maximal run of non-zero bytes. The
+// data extents are enumerated with lseek(SEEK_DATA/SEEK_HOLE), so a 4 GiB hole costs nothing; more than 16 MiB of stored
+// data is refused (a file system without hole support reports the whole file as data).
+func c14SparseRuns(file string) (int64, []c14Run_, bool) {
+	const seekData, seekHole = 3, 4
+	f, err := os.Open(file)
+	if err != nil {
+		return 0, nil, false
+	}
+	defer f.Close()
+	st, err := f.Stat()
+	if err != nil {
+		return 0, nil, false
+	}
+	size := st.Size()
+	fd := int(f.Fd())
+	var runs []c14Run_
+	total := int64(0)
+	pos := int64(0)
+	for pos < size {
+		d, err := syscall.Seek(fd, pos, seekData)
+		if err != nil {
+			if errors.Is(err, syscall.ENXIO) {
+				break // no data after pos
+			}
+			return 0, nil, false
+		}
+		h, err := syscall.Seek(fd, d, seekHole)
+		if err != nil {
+			return 0, nil, false
+		}
+		if h > size {
+			h = size
+		}
+		total += h - d
+		if total > 16<<20 {
+			return 0, nil, false
+		}
+		buf := make([]byte, h-d)
+		if _, err := f.ReadAt(buf, d); err != nil && err != io.EOF {
+			return 0, nil, false
+		}
+		for i := 0; i < len(buf); {
+			if buf[i] == 0 {
+				i++
+				continue
+			}
+			j := i
+			for j < len(buf) && buf[j] != 0 {
+				j++
+			}
+			if n := len(runs); n > 0 && runs[n-1].off+int64(len(runs[n-1].b)) == d+int64(i) {
+				runs[n-1].b = append(runs[n-1].b, buf[i:j]...) // a run continuing across two extents
+			} else {
+				runs = append(runs, c14Run_{d + int64(i), append([]byte{}, buf[i:j]...)})
+			}
+			i = j
+		}
+		pos = h
+	}
+	return size, runs, true
+}
+
 // ------------------------------------------------------------------ controller
 
 type c14Event struct {
@@ -202,6 +299,7 @@ type c14Proc struct {
 }
 
 func c14Run(args [][]string) []string {
+	big := ai(args[0][0]) == 2 // op 2: the file starts as a sparse file of ninit records, reported as (size, non-zero runs)
 	sz := int(ai(args[1][0]))
 	ninit := int(ai(args[1][1]))
 	maxprocs := 0 // 0: the Go default (number of CPUs)
@@ -229,11 +327,22 @@ func c14Run(args [][]string) []string {
 	must(err)
 	defer os.RemoveAll(dir)
 	file := filepath.Join(dir, ".DIR")
-	initb := make([]byte, sz*ninit)
+	nb := sz * ninit
+	if big {
+		nb = 0
+	}
+	initb := make([]byte, nb)
 	for i := range initb {
 		initb[i] = 200
 	}
-	must(os.WriteFile(file, initb, 0o644))
+	if big {
+		// a record file of ninit records that is a hole except for its first and its last record (bytes 200)
+		if !c14MakeSparse(file, sz, int64(ninit)) {
+			return []string{"3", "1"} // this file system cannot hold a file of that length
+		}
+	} else {
+		must(os.WriteFile(file, initb, 0o644))
+	}
 	for _, a := range away {
 		if a {
 			c14MakeFull(dir)
@@ -392,6 +501,9 @@ func c14Run(args [][]string) []string {
 			ev := e
 			if e.t == t && mine == nil {
 				mine = &ev
+				if ev.code == 5 && phase[t] >= 1 && phase[t] <= 3 && anyPending() {
+					needLock = true // an error return from inside the critical section (a refused seek or write) gives the flock back as well
+				}
 			} else if e.code == 1 && pending[e.t] && lock == nil {
 				lock = &ev
 			} else {
@@ -458,6 +570,18 @@ func c14Run(args [][]string) []string {
 	}
 	out = append(out, fmt.Sprint(lateCode), fmt.Sprint(lateIdx))
 	out = append(out, "-1")
+	if big {
+		size, runs, ok := c14SparseRuns(file)
+		if !ok {
+			return []string{"3", "2"} // holes of this file system cannot be enumerated (SEEK_DATA)
+		}
+		out = append(out, fmt.Sprint(size))
+		for _, r := range runs {
+			out = append(out, fmt.Sprint(r.off), fmt.Sprint(len(r.b)))
+			out = append(out, ob(r.b)...)
+		}
+		return out
+	}
 	fb, _ := os.ReadFile(file)
 	out = append(out, ob(fb)...)
 	return out
@@ -466,7 +590,7 @@ func c14Run(args [][]string) []string {
 func init() {
 	register("C14", &propDriver{run: func(args [][]string) []string {
 		switch ai(args[0][0]) {
-		case 1:
+		case 1, 2:
 			return c14Run(args)
 		}
 		return []string{"9"}
